@@ -394,6 +394,10 @@ def report(prop, tier, seed, results, known, assumed, t0, verbose):
                      "named_obligations": len(by_name), "secs": r["secs"]})
         for l in r["log"]:
             trusted.add(l)
+        con_ = REG.contracts.get(r["key"])
+        if not r["obligations"] and not r["error"] and con_ is not None and (con_.ensures or con_.decreases):
+            # vacuity guard per function: a contract that generates no obligation proves nothing
+            r["error"] = "contract generated no obligation (vacuous)"
         if r["error"]:
             rep_ = [x for x in r["refutations"] if "obligation" in x and x["replay"].get("reproduced")]
             done_ = set()
